@@ -5,6 +5,7 @@ import (
 	"errors"
 	"fmt"
 	"os"
+	"path/filepath"
 	"regexp"
 	"strings"
 	"testing"
@@ -29,6 +30,9 @@ type Level struct {
 	Escalate   string `json:"escalate"`
 	Deescalate string `json:"deescalate"`
 	Auth       bool   `json:"auth"`
+	// NoAsk (auth levels): the device grants the level without asking for the secret (none set,
+	// or the user is already authorised): then the secret must not be sent at all.
+	NoAsk bool `json:"no_ask,omitempty"`
 }
 
 // Rule is one operation of the history.
@@ -45,14 +49,16 @@ type Rule struct {
 
 // Case is a tree plus a history.
 type Case struct {
-	Levels      []Level `json:"levels"`
-	Style       string  `json:"style"` // literal, notcontains, suffix
-	Host        string  `json:"host"`
-	Default     int     `json:"default"`
-	Rules       []Rule  `json:"rules"`
-	Plan        []int   `json:"plan"`
-	ReadSize    int     `json:"read_size"`
-	ReadDelayNS int64   `json:"read_delay_ns"`
+	Levels  []Level `json:"levels"`
+	Style   string  `json:"style"` // literal, notcontains, suffix
+	Host    string  `json:"host"`
+	Default int     `json:"default"`
+	// Start: the level the device is at when the session opens
+	Start       int    `json:"start,omitempty"`
+	Rules       []Rule `json:"rules"`
+	Plan        []int  `json:"plan"`
+	ReadSize    int    `json:"read_size"`
+	ReadDelayNS int64  `json:"read_delay_ns"`
 }
 
 const secret = "s3cond-ary"
@@ -172,6 +178,7 @@ func genTree(t *rapid.T, n int) []Level {
 			}
 
 			lv[i].Auth = rapid.IntRange(0, 3).Draw(t, "auth") == 0
+			lv[i].NoAsk = lv[i].Auth && rapid.IntRange(0, 3).Draw(t, "noAsk") == 0
 		}
 	}
 
@@ -200,6 +207,10 @@ func gen(t *rapid.T) Case {
 	}
 	c.Default = rapid.IntRange(0, len(c.Levels)-1).Draw(t, "default")
 
+	if rapid.IntRange(0, 2).Draw(t, "startElsewhere") == 0 {
+		c.Start = rapid.IntRange(0, len(c.Levels)-1).Draw(t, "start")
+	}
+
 	if !c.uniquelyClaimed() {
 		ev.Count("navigate", "style_fallback", 1)
 		c.Style = "literal"
@@ -207,17 +218,18 @@ func gen(t *rapid.T) Case {
 
 	n := rapid.IntRange(1, 6).Draw(t, "nRules")
 	for i := 0; i < n; i++ {
-		r := Rule{K: rapid.SampledFrom([]string{"acquire", "acquire", "acquire", "acquire-unknown", "cmd", "cmds", "config", "configs", "interactive", "stall-acquire", "cmd"}).Draw(t, "rule")}
+		r := Rule{K: rapid.SampledFrom([]string{"acquire", "acquire", "acquire", "acquire-unknown", "cmd", "cmds", "config", "configs", "interactive", "stall-acquire", "cmd",
+			"cmds-file", "configs-file", "config-unknown-level"}).Draw(t, "rule")}
 		r.Target = rapid.IntRange(0, len(c.Levels)-1).Draw(t, "target")
 
 		switch r.K {
 		case "cmd", "config":
 			r.Lines = genLines(t, "line")[:1]
-		case "cmds", "configs", "interactive":
+		case "cmds", "configs", "interactive", "cmds-file", "configs-file", "config-unknown-level":
 			r.Lines = genLines(t, "lines")
 		}
 
-		if r.K == "config" || r.K == "configs" || r.K == "interactive" {
+		if r.K == "config" || r.K == "configs" || r.K == "interactive" || r.K == "configs-file" {
 			r.Explicit = rapid.Bool().Draw(t, "explicit")
 		}
 
@@ -273,7 +285,7 @@ func (c *Case) expectedPath(a, b int) []logged {
 		child := bb[i]
 		out = append(out, logged{c.Levels[child].Parent, c.Levels[child].Escalate})
 
-		if c.Levels[child].Auth {
+		if c.Levels[child].Auth && !c.Levels[child].NoAsk {
 			out = append(out, logged{c.Levels[child].Parent, secret})
 		}
 	}
@@ -281,8 +293,27 @@ func (c *Case) expectedPath(a, b int) []logged {
 	return out
 }
 
+// linesFile writes lines to a scratch file (removed with the case's temp dir) and returns its path.
+var linesFile func(lines []string) string
+
 func run(c Case) ev.Verdict {
-	mode := 0
+	tmp, terr := os.MkdirTemp("", "verif-c04-")
+	if terr != nil {
+		return ev.Verdict{OK: false, Msg: "INFRA: " + terr.Error()}
+	}
+
+	defer os.RemoveAll(tmp)
+
+	nFiles := 0
+	linesFile = func(lines []string) string {
+		nFiles++
+		p := filepath.Join(tmp, fmt.Sprintf("lines-%d.txt", nFiles))
+		_ = os.WriteFile(p, []byte(strings.Join(lines, "\n")+"\n"), 0o600)
+
+		return p
+	}
+
+	mode := c.Start
 	pw := -1
 	stallNext, stalled := false, false
 
@@ -330,7 +361,7 @@ func run(c Case) ev.Verdict {
 
 		for i, l := range c.Levels {
 			if l.Parent == mode && l.Escalate == line {
-				if l.Auth {
+				if l.Auth && !l.NoAsk {
 					pw = i
 
 					return "Password: ", true
@@ -454,6 +485,25 @@ func run(c Case) ev.Verdict {
 		case "cmds":
 			payload(c.Default)
 			_, opErr = d.SendCommands(r.Lines)
+		case "cmds-file":
+			payload(c.Default)
+			_, opErr = d.SendCommandsFromFile(linesFile(r.Lines))
+		case "config-unknown-level":
+			wantErr = util.ErrPrivilegeError
+			_, opErr = d.SendConfigs(r.Lines, opoptions.WithPrivilegeLevel("no-such-level"))
+		case "configs-file":
+			at := configIdx
+			if r.Explicit {
+				at = r.Target
+			}
+
+			if at < 0 {
+				wantErr = util.ErrPrivilegeError
+			} else {
+				payload(at)
+			}
+
+			_, opErr = d.SendConfigsFromFile(linesFile(r.Lines), lvlOpt()...)
 		case "config", "configs":
 			at := configIdx
 			if r.Explicit {
